@@ -505,6 +505,41 @@ theorem oracle_string_clauses (ops : List Op) (s : St) (h : run St.init ops = .o
   have := string_cells_never_freed_while_held ops s h c cell hc hk
   exact ⟨this.1, fun hl => (this.2 hl).elim Or.inl (fun x => Or.inr x.1)⟩
 
+
+/-- **oracle_accepts_model_state** (clause-level top theorem for the per-value part of the oracle).  The oracle's
+    declarative step `collect1` — "every existing value nobody refers to disappears; every counter is the number of
+    holders" — changes NOTHING on a state the model reaches (holders fitting the counters, no string saturated to the
+    immortal counter 0): after every history the counting machine is already in the state the declarative definition of
+    exact reference counting demands, and the iteration `collect` stops at once. -/
+theorem oracle_accepts_model_state (ops : List Op) (s : St) (h : run St.init ops = .ok s) (fit : FitsRun St.init ops)
+    (small : ∀ c, H s c < 2 ^ W)
+    (nosat : ∀ (c : Nat) (cell : Cell), s.heap[c]? = some cell → cell.live = true → cell.kind.isStr = true → cell.ref ≠ 0) :
+    collect1 s = (s, false) ∧ ∀ n, collect (n + 1) s = s := by
+  have de := run_DE ops St.init s h DE_init
+  have c1 : collect1 s = (s, false) := by
+    apply collect1_fix s de
+    · intro c cell hc hl
+      rw [holders_eq_H s de c]
+      cases hk : cell.kind.isStr with
+      | false =>
+        have := (ref_eq_holders ops s h fit c cell hc hl hk).2 (small c)
+        exact ⟨this.1, this.2⟩
+      | true =>
+        rcases (string_cells_never_freed_while_held ops s h c cell hc hk).2 hl with h0 | ⟨h1, h2, _⟩
+        · exact absurd h0 (nosat c cell hc hl hk)
+        · exact ⟨h1, h2⟩
+    · intro c cell hc hl
+      exact oracle_freed_clause ops s h fit c cell hc hl
+  refine ⟨c1, fun n => ?_⟩
+  simp only [collect, c1]
+  rfl
+
+/-- non-vacuity: a model state with shared values, a pending call_out and a destructed object is a fixpoint of the oracle -/
+example : ∃ s, run St.init [.newarr 0 2, .assign 1 0, .newmap 2, .mset 2 0 0, .newobj 0, .call 0 0 1 0 2, .dest 0, .free 1] = .ok s ∧
+    (collect1 s).2 = false ∧ (collect1 s).1.heap.map (·.ref) = s.heap.map (·.ref) ∧ (∀ c, c < s.heap.length → H s c < 2 ^ W) := by
+  refine ⟨_, rfl, ?_, ?_, ?_⟩ <;> decide
+
+
 /-- non-vacuity: the oracle's count on a model state with shared values -/
 example : ∃ s, run St.init [.newarr 0 2, .assign 1 0, .newmap 2, .mset 2 0 0, .free 1] = .ok s ∧ holders s 2 = 3 ∧ H s 2 = 3 := by
   refine ⟨_, rfl, ?_, ?_⟩ <;> decide
@@ -518,5 +553,65 @@ def balancedExample : List Op :=
 example : ∃ s, run St.init balancedExample = .ok s ∧ (∀ c, c < s.heap.length → H s c = 0) ∧
     s.stats.numArrays = 0 ∧ s.stats.objects = 0 := by
   refine ⟨_, rfl, ?_, ?_, ?_⟩ <;> decide
+
+/-! ### one sweep of call_out() runs every pending call exactly once -/
+
+theorem insCall_perm (x : Nat × Nat) (l : List (Nat × Nat)) : (insCall x l).Perm (x :: l) := by
+  induction l with
+  | nil => exact List.Perm.refl _
+  | cons y ys ih =>
+    unfold insCall
+    split
+    · exact List.Perm.refl _
+    · exact ((List.Perm.cons y ih).trans (List.Perm.swap x y ys))
+
+theorem foldl_insCall_perm (l acc : List (Nat × Nat)) :
+    (l.foldl (fun acc x => insCall x acc) acc).Perm (l ++ acc) := by
+  induction l generalizing acc with
+  | nil => exact List.Perm.refl _
+  | cons x xs ih =>
+    simp only [List.foldl_cons]
+    refine (ih (insCall x acc)).trans ?_
+    refine (List.Perm.append_left xs (insCall_perm x acc)).trans ?_
+    simp only [List.cons_append]
+    exact List.perm_middle
+
+/-- the pending calls: slots whose root holds a call record, with the record's cell index -/
+def pendingCalls (s : St) : List (Nat × Nat) :=
+  (List.range nCalls).filterMap (fun k => match s.roots[rCall k]? with
+    | some (.ptr c) => some (c, k)
+    | _ => none)
+
+/-- **sweep_runs_every_pending_call_once.**  One sweep of call_out() (model: `sweepOrder`) visits exactly the slots that
+    hold a pending call, each once: no call is lost and none is run twice, whatever the order. -/
+theorem sweep_runs_every_pending_call_once (s : St) :
+    (sweepOrder s).Perm ((pendingCalls s).map (·.2)) ∧ (sweepOrder s).Nodup := by
+  have hp : (sweepOrder s).Perm ((pendingCalls s).map (·.2)) := by
+    unfold sweepOrder pendingCalls
+    have := foldl_insCall_perm ((List.range nCalls).filterMap (fun k => match s.roots[rCall k]? with
+      | some (.ptr c) => some (c, k)
+      | _ => none)) []
+    simp only [List.append_nil] at this
+    exact this.map _
+  refine ⟨hp, ?_⟩
+  rw [hp.nodup_iff]
+  unfold pendingCalls
+  have hsub : ((List.range nCalls).filterMap (fun k => match s.roots[rCall k]? with
+      | some (.ptr c) => some (c, k)
+      | _ => none)).map (·.2) = (List.range nCalls).filter (fun k => match s.roots[rCall k]? with
+      | some (.ptr _) => true
+      | _ => false) := by
+    induction (List.range nCalls) with
+    | nil => rfl
+    | cons k ks ih =>
+      cases hr : s.roots[rCall k]? with
+      | none => simp [hr, ih]
+      | some v =>
+        cases v with
+        | num n => simp [hr, ih]
+        | ptr c => simp [hr, ih]
+  rw [hsub]
+  exact List.Nodup.sublist List.filter_sublist List.nodup_range
+
 
 end NV.C06
